@@ -73,7 +73,19 @@ fn rr(ctx: &mut Ctx, dial: bool) {
     let starts: Vec<u32> = (0..k).map(|_| if ctx.plan(3) == 0 { 0 } else { ctx.plan(40) as u32 }).collect();
     let stypes: Vec<&'static str> = (0..k).map(|_| kind.peers()[ctx.plan(kind.peers().len() as u64) as usize]).collect();
     let nsends = 1 + ctx.plan(14) as usize;
-    let shapes: Vec<Vec<usize>> = (0..nsends).map(|_| (0..1 + ctx.plan(3)).map(|_| ctx.plan_pick(&[0usize, 1, 10, 255, 256, 2000, 9000])).collect()).collect();
+    // one message in four ends in one or two empty frames (frames that repeat within a message:
+    // empty next to empty, and for REQ the delimiter again at the end)
+    let shapes: Vec<Vec<usize>> = (0..nsends)
+        .map(|_| {
+            let mut v: Vec<usize> = (0..1 + ctx.plan(3)).map(|_| ctx.plan_pick(&[0usize, 1, 10, 255, 256, 2000, 9000])).collect();
+            if ctx.plan(4) == 0 {
+                for _ in 0..1 + ctx.plan(2) {
+                    v.push(world::TAIL_EMPTY);
+                }
+            }
+            v
+        })
+        .collect();
     let gaps: Vec<u32> = (0..nsends).map(|_| ctx.plan(6) as u32).collect();
     let mut at: Vec<usize> = (0..k).map(|_| if !dial || ctx.plan(2) == 0 { 0 } else { ctx.plan(nsends as u64) as usize }).collect();
     at.sort();
